@@ -373,4 +373,14 @@ theorem msg_sees_tail (c : Conn) (n : Nat) :
   rw [hs]
   exact ⟨s, by simp [deliver, seen]⟩
 
+/-! ### the statements are not vacuous -/
+
+example : Fresh ({} : Conn) := fresh_default .epoll true true true (64 * 1024 * 1024) (1 <<< 40) [] [] []
+
+/-- the peer writes 5 bytes in two pieces, one `readv` gets 4, the callback retrieves 2 -/
+example :
+    let c := run (step {} .establish) [.setRetrieve 2, .peerWrite [1,2,3], .peerWrite [4,5], .envRead (.got 4), .iter [.conn 1]]
+    c.delivered = [1,2,3,4] ∧ c.peerPending = [5] ∧ c.peerAll = [1,2,3,4,5] ∧ c.inBuf = [3,4]
+      ∧ c.trace = [.up, .sysReadv (.got 4), .msg 4 (fnv64 [1,2,3,4])] := by decide
+
 end MuduoVerif.Conn
